@@ -122,8 +122,9 @@ def main(drv):
                 r = subprocess.run(argv, input=pre + text, stdout=subprocess.PIPE, stderr=subprocess.STDOUT, text=True, timeout=1800)
                 return [l.strip() for l in r.stdout.split("\n") if l.strip() in ("sat", "unsat", "unknown")], ("(error" in r.stdout)
             gd = "(set-option :global-declarations true)\n"
-            ref, e0 = answers(["z3", "-in"], gd + "(set-option :produce-models true)\n")
-            for name, argv, pre in (("z3-new", ["z3-new", "-in"], gd + "(set-option :produce-models true)\n"), ("cvc5", ["cvc5", "--incremental", "--lang=smt2", "--produce-models", "--fp-exp"], gd + "(set-logic ALL)\n")):
+            # per-query time limits as in the engine (an answer of "unknown" is not a disagreement)
+            ref, e0 = answers(["z3", "-in", "-t:10000"], gd + "(set-option :produce-models true)\n")
+            for name, argv, pre in (("z3-new", ["z3-new", "-in", "-t:10000"], gd + "(set-option :produce-models true)\n"), ("cvc5", ["cvc5", "--incremental", "--lang=smt2", "--produce-models", "--fp-exp", "--tlimit-per=10000"], gd + "(set-logic ALL)\n")):
                 got, e1 = answers(argv, pre)
                 n = min(len(ref), len(got))
                 diff = sum(1 for i in range(n) if ref[i] != got[i] and "unknown" not in (ref[i], got[i]))
